@@ -511,10 +511,18 @@ class DateRange:
             date += self.step
 
     def __contains__(self, date):
-        if self.inclusive:
-            return self.start <= date <= self.stop
+        if self.step.total_seconds() > 0:
+            first, last = self.start, self.stop
         else:
-            return self.start <= date < self.stop
+            # Negative step: the range runs backward from start down to stop
+            first, last = self.stop, self.start
+
+        if self.inclusive:
+            return first <= date <= last
+        elif self.step.total_seconds() > 0:
+            return first <= date < last
+        else:
+            return first < date <= last
 
     def __len__(self):
         if self.inclusive and self.dur % self.step == timedelta(0):
